@@ -609,6 +609,10 @@ E('odefun', ['cb:ode_exp', '=0', '=1', 'v'], op='wrapcall:odefun', fam='I', tol=
 E('odefun', ['cb:ode_osc', '=0', lambda r, c: L(I(1), I(0)), 'v'], op='wrapcall:odefun', key='odefun_vec', fam='I', tol=10, cost=3, c10=False, ret='seq', maxprec=100)
 E('invertlaplace', ['cb:lap_exp', 'P'], fam='I', tol=10, cost=3, c10=False, maxprec=100,
   kw={'method': lambda r, c: {'t': 'str', 'v': r.choice(['talbot', 'stehfest', 'dehoog'])}})
+E('invertlaplace', ['cb:lap_exp', 'P'], key='invertlaplace_deg', fam='I', tol=10, cost=2, c10=False, maxprec=70,      # the rule singletons
+  kw={'method': lambda r, c: {'t': 'str', 'v': r.choice(['stehfest', 'stehfest', 'talbot', 'dehoog'])}, 'degree': (0.7, 'c:8,12,15,16,16,20,30')})
+E('invertlaplace', ['cb:lap_sin', 'P'], key='invertlaplace_sin', fam='I', tol=10, cost=2, c10=False, maxprec=70,
+  kw={'method': lambda r, c: {'t': 'str', 'v': r.choice(['stehfest', 'talbot', 'dehoog'])}, 'degree': (0.5, 'c:8,12,16,20,30')})
 E('richardson', 'vec', fam='I', tol=10, c10=False, ret='seq', ctxs=MPFP)
 E('shanks', 'vec', fam='I', tol=10, c10=False, ret='other')
 E('autoprec', 'cb:gammaf P', op='wrapcall:autoprec', fam='I', tol=10, cost=2, c10=False, maxprec=200)
@@ -705,6 +709,59 @@ E('power', ['p', _smallfrac], key='power_frac', fam='B', tol=4)
 E('sqrt', ['n'], key='sqrt_int', fam='B', tol=2)
 E('sqrt', ['k'], key='sqrt_negint', fam='B', tol=2)
 E('root', ['p', 'i:2:9'], key='root_real_pos', fam='B', tol=4)
+
+# --- large arguments (asymptotic branches) and the documented evaluation options of the hypergeometric machinery --------
+def _bigz(r, c):
+    return real_spec(r, 6, 20, cfg=c)
+def _hugez(r, c):
+    return real_spec(r, 20, 120, cfg=c)
+HOPT = {'maxprec': (0.35, 'i:60:600'), 'maxterms': (0.25, 'i:50:6000'), 'zeroprec': (0.15, 'i:10:200'), 'infprec': (0.15, 'i:10:200'),
+        'accurate_small': (0.15, 'c:0,1')}
+HOPT_S = dict(HOPT, force_series=(0.15, 'c:0,1'))
+E('hyp0f1', ['P', _bigz], key='hyp0f1_big', fam='G', tol=10, cost=2, maxprec=300, kw=HOPT_S)
+E('hyp1f1', ['x', 'P', _bigz], key='hyp1f1_big', fam='G', tol=10, cost=2, maxprec=300, kw=HOPT_S)
+E('hyp1f1', ['x', 'P', _hugez], key='hyp1f1_huge', fam='G', tol=10, cost=2, maxprec=200, kw=HOPT)
+E('hyp1f2', ['x', 'P', 'P', _bigz], key='hyp1f2_big', fam='G', tol=10, cost=2, maxprec=300, kw=HOPT)
+E('hyp2f2', ['x', 'x', 'P', 'P', _bigz], key='hyp2f2_big', fam='G', tol=10, cost=2, maxprec=300, kw=HOPT)
+E('hyp2f3', ['x', 'x', 'P', 'P', 'P', _bigz], key='hyp2f3_big', fam='G', tol=10, cost=2, maxprec=300, kw=HOPT)
+E('hyp2f0', ['k', 'x', lambda r, c: real_spec(r, -12, -4, cfg=c)], key='hyp2f0_small', fam='G', tol=10, cost=2, maxprec=300, kw=HOPT)
+E('hyper', [lambda r, c: L(real_spec(r, -3, 3, cfg=c)), lambda r, c: L(real_spec(r, -2, 3, sign=0, cfg=c)), _bigz],
+  key='hyper_big', fam='G', tol=10, cost=2, maxprec=300, kw=HOPT)
+E('hyp2f1', 'x x P W', key='hyp2f1_opts', fam='G', tol=10, cost=2, maxprec=300, kw=HOPT)
+E('hyperu', ['P', 'P', _bigz], key='hyperu_big', fam='F', tol=10, cost=2, maxprec=300, kw=HOPT)
+E('besselj', ['o', _bigz], key='besselj_bigz', fam='F', tol=10, cost=2, maxprec=300, kw=HOPT)
+E('besseli', ['o', _bigz], key='besseli_bigz', fam='F', tol=10, cost=2, maxprec=300, kw=HOPT)
+E('besselk', ['o', _bigz], key='besselk_bigz', fam='F', tol=10, cost=2, maxprec=300, kw=HOPT)
+E('bessely', ['o', _bigz], key='bessely_bigz', fam='F', tol=10, cost=2, maxprec=300, kw=HOPT)
+E('airyai', [_bigz], key='airyai_big', fam='F', tol=10, cost=2, maxprec=300)
+E('airybi', [_bigz], key='airybi_big', fam='F', tol=10, cost=2, maxprec=300)
+E('erf', [_bigz], key='erf_big', fam='E', tol=8, maxprec=400)
+E('erfc', [_bigz], key='erfc_big', fam='E', tol=8, maxprec=400)
+E('gammainc', ['P', _bigz], key='gammainc_bigz', fam='E', tol=10, cost=2, maxprec=300)
+E('expint', ['o', _bigz], key='expint_bigz', fam='E', tol=10, cost=2, maxprec=300)
+E('ei', [_bigz], key='ei_big', fam='E', tol=8, maxprec=400)
+E('e1', [_bigz], key='e1_big', fam='E', tol=8, maxprec=400)
+E('struveh', ['o', _bigz], key='struveh_big', fam='F', tol=10, cost=2, maxprec=200)
+E('pcfd', ['h', _bigz], key='pcfd_big', fam='F', tol=10, cost=2, maxprec=200)
+E('whitw', ['u', 'u', _bigz], key='whitw_big', fam='F', tol=10, cost=2, maxprec=200)
+
+# --- Python builtins applied to numbers and matrices (printing converts at a raised or a decimal precision internally) ----
+def _mpfonly(r, c):
+    return mpf_spec(r, -6, 5, maxwidth=(c or {}).get('maxwidth'))
+def _mpconly(r, c):
+    return {'t': 'mpc', 'v': [mpf_spec(r, -5, 4)['v'], mpf_spec(r, -5, 4)['v']]}
+for _b in ['str', 'repr', 'float', 'int', 'hash', 'bool']:
+    E(_b, [_mpfonly], op='py:' + _b, key='py_' + _b, fam='L', exact=True, c10=False, ret='other', ctxs=MPIV if _b in ('str', 'repr') else ('mp',))
+for _b in ['str', 'repr', 'complex', 'hash']:
+    E(_b, [_mpconly], op='py:' + _b, key='py_' + _b + '_c', fam='L', exact=True, c10=False, ret='other')
+E('str', 'mat3', op='py:str', key='py_str_matrix', fam='K', exact=True, c10=False, ret='other', ctxs=MPFP)
+E('repr', 'mat3', op='py:repr', key='py_repr_matrix', fam='K', exact=True, c10=False, ret='other')
+E('str', [{'t': 'const', 'v': 'pi'}], op='py:str', key='py_str_const', fam='L', exact=True, c10=False, ret='other')
+E('float', [lambda r, c: {'t': 'const', 'v': r.choice(['pi', 'e', 'euler', 'catalan'])}], op='py:float', key='py_float_const', fam='L', exact=True, c10=False, ret='other')
+E('nstr', 'mat3', key='nstr_matrix', fam='K', exact=True, c10=False, ret='other', kw={'n': (0.5, 'i:1:40')})
+E('nstr', [_mpconly], key='nstr_c', fam='L', exact=True, c10=False, ret='other', kw={'n': (0.5, 'i:1:40')})
+E('nstr', [_mpfonly], key='nstr_opts', fam='L', exact=True, c10=False, ret='other',
+  kw={'n': (0.7, 'i:1:60'), 'min_fixed': (0.3, 'i:-10:0'), 'max_fixed': (0.3, 'i:0:10'), 'strip_zeros': (0.3, 'c:0,1'), 'show_zero_exponent': (0.2, 'c:0,1')})
 
 # --- M: public entry points that a coverage audit of dir(mp) found without an entry ------------------------------
 def _tiny(r, c):
